@@ -158,7 +158,7 @@ def tlc(ctx, module, cfg, env=None, workers=8, timeout=1500, xmx="6g", simulate=
         f.write(_cfg_text(cfg))
     meta = os.path.join(ctx.work, "meta_" + tag)
     shutil.rmtree(meta, ignore_errors=True)
-    jopts = ["-XX:+UseParallelGC", "-Xss1g", "-Xmx" + xmx]
+    jopts = ["-XX:+UseParallelGC", "-XX:ParallelGCThreads=4", "-Xss1g", "-Xmx" + xmx]
     if deque:
         jopts.append("-Dtlc2.tool.queue.IStateQueue=StateDeque")
     cmd = ["timeout", str(timeout), "java"] + jopts + ["-cp", JAR, "tlc2.TLC",
